@@ -32,6 +32,12 @@ Theorem C03_call_targets : forall p, bytes_ok p -> acc p -> forall k,
   exists t, gen_jit_call_target k (insn_at p k) = Ok t /\ In t (starts p) /\ 0 <= gen_jit_resolve_index t < nslots p + 1.
 Proof. exact jit_call_targets_in_range. Qed.
 
+(** resolve_jumps writes the displacement that makes the jump land on the recorded location of its target *)
+Theorem C03_jump_fixup : forall offset_loc target_loc,
+  0 <= offset_loc -> offset_loc + 4 < 2 ^ 31 -> 0 <= target_loc < 2 ^ 31 ->
+  exists rel, gen_jit_rel32 offset_loc target_loc = Ok rel /\ (offset_loc + 4) + rel = target_loc /\ - 2 ^ 31 <= rel < 2 ^ 31.
+Proof. exact jit_rel32_lands. Qed.
+
 (** the x86-64 encoders of jit.rs (regenerated) append exactly the bytes of the encoding specification X86Enc.v:
     register-direct ALU forms, with immediates, mov, push / pop, loads and stores of every width with every base / value
     register and every 32-bit displacement (mod 00 / disp8 / disp32 selection, rbp / r13 needing a displacement), mov imm64 *)
@@ -95,6 +101,7 @@ Example C03_enc_example :
 Proof. vm_compute. repeat split. Qed.
 
 Print Assumptions C03_register_map.
+Print Assumptions C03_jump_fixup.
 Print Assumptions C03_enc_alu.
 Print Assumptions C03_enc_load.
 Print Assumptions C03_enc_store.
